@@ -214,7 +214,11 @@ func H_C17_ignored() {
 		dir, _ := failFileName(name)
 		_ = vfsMkdirAll(dir, 0775)
 		for i := 0; i < nfiles; i++ {
-			content, unreadable := unusableFile(choose("file"+itoa(i), nUnusable), 0)
+			shapes := nUnusable
+			if i > 0 {
+				shapes = 19 // a second file: the 19 named shapes (the truncations are covered as first file)
+			}
+			content, unreadable := unusableFile(choose("file"+itoa(i), shapes), 0)
 			p := filepath.Join(dir, kindaSafeFilename(name)+"-2026-"+itoa(i)+".fail")
 			vfs.files[p] = content
 			if unreadable {
